@@ -27,6 +27,9 @@ POOL = {
     'H': ('H\txx:i:1', 'KH'),
     'S1a': ('S\tA\t*', 'KS V1'), 'S1b': ('S\tB\tACGT\tLN:i:4', 'KS V1'),
     'S2a': ('S\tA\t10\t*', 'KS V2'), 'S2b': ('S\tB\t4\tACGT', 'KS V2'),
+    # segments whose syntax must be recognised through their tags (names with a digit, several tags, tag-like sequence)
+    'S1c': ('S\tC\t*\tx1:i:3', 'KS V1'), 'S1d': ('S\tD\tACGT\ts2:Z:a\tRC:i:4', 'KS V1'),
+    'S2c': ('S\tC\t10\t*\tx1:i:3', 'KS V2'), 'S2d': ('S\tD\t4\tACGT\ts2:Z:a\tz9:f:1.5', 'KS V2'),
     'L': ('L\tA\t+\tB\t+\t*', 'KG V1'), 'C': ('C\tA\t+\tB\t+\t0\t*', 'KG V1'), 'P': ('P\tp\tA+,B+\t*', 'KG V1'),
     'E': ('E\te\tA+\tB+\t0\t2\t0\t2\t*', 'KG V2'), 'G': ('G\tg\tA+\tB+\t5\t*', 'KG V2'), 'F': ('F\tA\tr+\t0\t1\t0\t1\t*', 'KG V2'),
     'O': ('O\to\tA+ B+', 'KG V2'), 'U': ('U\tu\tA B', 'KG V2'),
